@@ -37,7 +37,7 @@ theorem checkRepetition_sound (st : St S M) (cur : S) (rest : List S) (hs : st.s
 
 /-- what `evaluate` does: only the value of the focus and the depth-limit flag change, and the value is justified -/
 theorem evaluate_spec (st st' : St S M) (cur : S) (rest : List S) (hs : st.stack = cur :: rest)
-    (h : evaluate G att st = some st') :
+    (h : PN.evaluate G att st = some st') :
     ∃ v, st'.focus = { st.focus with value := v } ∧ st'.up = st.up ∧ st'.stack = st.stack ∧
       st'.cfg = st.cfg ∧ st'.stats = st.stats ∧ st'.anomaly = st.anomaly ∧
       (st'.depthLimited = (st.depthLimited || st'.depthLimited)) ∧
@@ -45,7 +45,7 @@ theorem evaluate_spec (st st' : St S M) (cur : S) (rest : List S) (hs : st.stack
       (v = .unknown → G.over cur = none) ∧
       (v = .disproven → st'.depthLimited = true ∨ (∃ w, G.over cur = some w ∧ w ≠ att) ∨
           (G.over cur = none ∧ Rep3 G rest cur)) := by
-  unfold evaluate at h
+  unfold PN.evaluate at h
   split at h
   · injection h with h; subst h
     exact ⟨.disproven, rfl, rfl, rfl, rfl, rfl, rfl, by simp, by simp, by simp, fun _ => Or.inl rfl⟩
